@@ -193,7 +193,7 @@ class Evaluator:
                 a_, b_ = s0.split(t, 1)
                 return ("some", ("tuple", ("str", a_), ("str", b_)))
             return ("none",)
-        if short == "bytes" and len(args) == 1:
+        if short in ("bytes", "as_bytes") and len(args) == 1:
             return ("array",) + tuple(("int", x) for x in s0.encode())
         if short == "chars" and len(args) == 1:
             return ("array",) + tuple(("char", ord(x)) for x in s0)
@@ -739,6 +739,18 @@ class Evaluator:
     def _store(self, l, v, env):
         if self._store_field(l, v, env):
             return
+        li = hir.simp(l)
+        if li.get("k") == "index":
+            # `a[i] = v` on a concrete array at a concrete index: functional update of the array, stored back into its place
+            try:
+                base_v, iv = self.ev(li["e"], env), self.ev(li["i"], env)
+            except Unrecognised:
+                base_v = iv = None
+            if base_v is not None and base_v[0] == "array" and iv[0] == "int":
+                if not 0 <= iv[1] < len(base_v) - 1:
+                    raise Unrecognised(f"store at index {iv[1]} of an array of {len(base_v) - 1}")
+                self._store(hir.peel(li["e"]), base_v[:iv[1] + 1] + (v,) + base_v[iv[1] + 2:], env)
+                return
         key = l["name"] if l.get("k") == "local" else hir.place_str(l)
         if key is None:
             raise Unrecognised("assignment to an untracked place")
@@ -864,6 +876,27 @@ class Evaluator:
                 if callable(a):
                     return a([self.ev(x, env) for x in e["args"]])
                 return a
+        if cal.endswith("::copy_from_slice") and cal.startswith("core::slice::") and len(e.get("args", [])) == 2:
+            # `place[a..b].copy_from_slice(src)` on a concrete array: the range of the array replaced (lengths must agree — the
+            # call panics otherwise), stored back into the place
+            dst = hir.peel(e["args"][0])
+            di = hir.simp(dst)
+            src = self.ev(e["args"][1], env)
+            if di.get("k") == "index" and src[0] == "array":
+                base_v, rng = self.ev(di["e"], env), self.ev(di["i"], env)
+                if base_v[0] == "array" and rng[0] == "rec" and set(rng[1]) <= {"start", "end"} and all(v[0] == "int" for v in rng[1].values()):
+                    lo = rng[1]["start"][1] if "start" in rng[1] else 0
+                    hi = rng[1]["end"][1] if "end" in rng[1] else len(base_v) - 1
+                    if not 0 <= lo <= hi <= len(base_v) - 1 or hi - lo != len(src) - 1:
+                        raise Unrecognised(f"copy_from_slice of {len(src) - 1} elements into {lo}..{hi} of {len(base_v) - 1}: would panic")
+                    self._store(hir.peel(di["e"]), base_v[:1 + lo] + tuple(src[1:]) + base_v[1 + hi:], env)
+                    return ("unit",)
+            elif src[0] == "array":
+                base_v = self.ev(dst, env)
+                if base_v[0] == "array" and len(base_v) == len(src) and hir.place_str(dst) is not None:
+                    self._store(dst, src, env)
+                    return ("unit",)
+            raise Unrecognised("copy_from_slice outside concrete arrays")
         if cal == "std::env::var_os":
             if self.env_vars is None:
                 raise Unrecognised("environment read where none was expected")
@@ -963,6 +996,15 @@ class Evaluator:
             return self.atoms["transmute"](args + [e.get("ty")])
         if short == "is_empty" and args and args[0][0] == "str":
             return ("bool", args[0][1] == "")
+        if short in ("from_utf8_unchecked", "from_utf8") and self.concrete_strings and len(args) == 1 and args[0][0] == "array" \
+                and all(x[0] == "int" and 0 <= x[1] < 256 for x in args[0][1:]) and cal.startswith("core::str::"):
+            try:
+                text = bytes(x[1] for x in args[0][1:]).decode("utf-8")
+            except UnicodeDecodeError:
+                if short == "from_utf8":
+                    return ("err", ("sym", "utf8-error"))
+                raise Unrecognised("from_utf8_unchecked of bytes that are not UTF-8")
+            return ("str", text) if short == "from_utf8_unchecked" else ("ok", ("str", text))
         if args and args[0][0] == "str" and self.concrete_strings:
             v = self._str_method(short, cal, args, e)
             if v is not None:
@@ -1110,6 +1152,11 @@ class Evaluator:
                 return ("bool", False)
             if cal.startswith("<core::option::Option<"):
                 return ("none",)
+        if cal.startswith("core::array::<impl core::default::Default for [T;") and not args:
+            import re as _re
+            m_ = _re.match(r"^\[(\w+); (\d+)\]$", str(e.get("ty", "")))
+            if m_ and m_.group(1) in INT_TYS:
+                return ("array",) + (("int", 0),) * int(m_.group(2))
         if cal.endswith("core::convert::Into<U>>::into") and len(args) == 1:
             # the blanket `Into`: the `From` impl of the target type for the argument's type
             src_ty = str(hir.simp(e["args"][0]).get("ty", "")).lstrip("&")
